@@ -181,6 +181,8 @@ class Machine:
     def wg(self, name, val):
         r, b, sh = REG[name]
         if b == 64:
+            if self.cuts is not None and not is_c(val) and self.cur is not None and self.cur.mnem in getattr(self, "scalar_canon_mnems", ()):
+                val = self.cuts.canon(val)      # scalar cut points (64-bit chained state such as the murmur words)
             self.g[r] = val
         elif b == 32:
             self.g[r] = zext(val, 32, 64) if not is_c(val) else val & mask(32)
@@ -983,7 +985,17 @@ class Machine:
         for la, lb in zip(lanes(a, w, 128), lanes(b, w, 128)):
             ctl = simp(lb)
             if not is_c(ctl):
-                raise Unsupported("pshufb with symbolic control")
+                # symbolic control: byte k = (ctl_k & 0x80) ? 0 : src byte (ctl_k & 15), as a variable shift of the source lane
+                import z3 as _z3
+                srcv = tz(la, 128)
+                r = []
+                for k in range(16):
+                    cb = ext(ctl, 8 * k + 7, 8 * k)
+                    sh = _z3.ZeroExt(120, tz(cb, 8) & 0x0f) * 8
+                    sel = _z3.Extract(7, 0, _z3.LShR(srcv, sh))
+                    r.append(_z3.If(_z3.Extract(7, 7, tz(cb, 8)) == 1, _z3.BitVecVal(0, 8), sel))
+                out.append(join(r, 8))
+                continue
             ab = lanes(la, 128, 8)
             r = []
             for k in range(16):
